@@ -66,7 +66,8 @@ Record Inv (s : lstate) (g : ghost) : Prop := mkInv {
   i_closed : closed s = get (dn s) (root G);
   i_sem : forall a t, get (th s) a = Some t -> hph t = HEnded -> hsem t = true;
   i_seedleaf : forall b, stg g b = SSeed -> b <> root G;
-  i_seeding : top = false -> seedl s <> [] -> mainp s = MIdle \/ mainp s = MDone }.
+  i_seeding : top = false -> seedl s <> [] -> mainp s = MIdle \/ mainp s = MDone;
+  i_seeddeps : forall b, stg g b = SSeed -> deps G b = [] }.
 
 Lemma countb_filter : forall (f : nat -> bool) b l, NoDup l -> countb b (filter f l) = if memb b l && f b then 1 else 0.
 Proof.
@@ -111,6 +112,8 @@ Proof.
   - (* seedleaf *) destruct (memb b (nodes G) && nilb (deps G b)) eqn:E; try discriminate.
     apply andb_true_iff in E. destruct E as [E _]. apply memb_In in E. intro. subst. apply (wf_root G WF). assumption.
   - (* seeding *) left. reflexivity.
+  - (* seeddeps *) destruct (memb b (nodes G) && nilb (deps G b)) eqn:E; try discriminate.
+    apply andb_true_iff in E. destruct E as [_ E]. apply nilb_nil in E. assumption.
 Qed.
 
 (* A thread exists only for actions of the graph. *)
@@ -214,6 +217,7 @@ Proof.
     + apply (i_seedleaf _ _ I). assumption.
   - apply orb_false_iff in Heqb0. destruct Heqb0 as [_ Hx]. apply negb_false_iff in Hx. rewrite H in Hx. rewrite orb_false_r in Hx.
     unfold main_idle in Hx. destruct (mainp s); try discriminate. left. reflexivity.
+  - cases b0 b; gsimp. discriminate. apply (i_seeddeps _ _ I); assumption.
 Qed.
 
 Ltac same I :=
@@ -223,7 +227,7 @@ Ltac same I :=
         | (apply (i_top _ _ I); assumption) | (eapply (i_sem _ _ I); eassumption) | apply (i_seed _ _ I) | apply (i_queue _ _ I)
         | apply (i_main _ _ I) | apply (i_th _ _ I) | apply (i_slot _ _ I) | (apply (i_wait _ _ I); assumption)
         | (apply (i_out _ _ I); assumption) | (eapply (i_deps _ _ I); eassumption) | (eapply (i_seedleaf _ _ I); eassumption)
-        | (apply (i_seeding _ _ I); assumption) ].
+        | (apply (i_seeding _ _ I); assumption) | (eapply (i_seeddeps _ _ I); eassumption) ].
 
 (* H : X <-> old = C with old <> C syntactically; goal X <-> new = C with new <> C *)
 Ltac iff_false H := let Hx := fresh in split; intro Hx; [ apply H in Hx; discriminate Hx | discriminate Hx ].
@@ -257,6 +261,7 @@ Proof.
   - discriminate.
   - cases b0 b; gsimp; [| same I]. discriminate.
   - exfalso. rewrite H in Hs. simpl in Hs. apply nilb_nil in Hs. congruence.
+  - cases b0 b; gsimp; [| same I]. discriminate.
 Qed.
 
 Lemma Inv_spawn : forall s g b sem inl mp (e : label),
@@ -299,6 +304,7 @@ Proof.
   - cases a b; gsimp; [| same I]. inversion H; subst. discriminate.
   - cases b0 b; gsimp; [| same I]. discriminate.
   - exfalso. destruct (i_seeding _ _ I H H0); congruence.
+  - cases b0 b; gsimp; [| same I]. discriminate.
 Qed.
 
 Ltac bsplit :=
@@ -513,6 +519,7 @@ Proof.
   - eapply ph_busy; eauto.
   - eapply ph_sem; eauto. discriminate.
   - cases b0 b; gsimp; [| same I]. discriminate.
+  - cases b0 b; gsimp; [| same I]. discriminate.
 Qed.
 
 Lemma remT_set : forall m a t' a0 b,
@@ -593,6 +600,7 @@ Proof.
         rewrite (i_dn _ _ I _ _ Ed). destruct (hph t0); simpl in *; try lia; reflexivity.
     + eapply ph_busy; eauto.
     + eapply ph_sem; eauto. discriminate.
+    + cases b0 b; gsimp; [| same I]. discriminate.
     + cases b0 b; gsimp; [| same I]. discriminate.
   - (* not the last decrement *)
     apply Nat.eqb_neq in E1.
@@ -1205,6 +1213,392 @@ Proof.
       rewrite H. simpl. eauto.
     + exists (EDeq (mitem m)). split. exact Logic.I. intros. unfold C06.step. rewrite Hr, Hsd. rewrite orb_true_r. simpl.
       rewrite Eq. simpl. rewrite Nat.eqb_refl. eauto.
+Qed.
+
+(* ------------------------------------------------------------------------------------------------ *)
+(* Happens-before skeleton.  A second ghost component tracks, as a vector-clock race detector would, for  *)
+(* every thread and every synchronisation object the set of actions whose result write (EEnd) happens     *)
+(* before it.  Edges: program order; goroutine start (ESpawn: loop thread -> handler; EInline is program   *)
+(* order); atomic read-modify-write on a pending counter (EDec: acquires what earlier decrements of the    *)
+(* same counter released, and releases); channel send -> receive (ESeed/EEnq -> EDeq); close -> the        *)
+(* receive that observes it (EClose -> EExit).                                                             *)
+
+Record hb := mkhb {
+  kt : nat -> list nat;      (* handler of action a *)
+  km : list nat;             (* the loop's thread *)
+  kc : nat -> list nat;      (* pending counter of b *)
+  kq : nat -> list nat;      (* the message carrying item b *)
+  kcl : list nat }.          (* the close of the queue *)
+
+Definition hb0 : hb := mkhb (fun _ => []) [] (fun _ => []) (fun _ => []) [].
+
+(* what the loop's thread knows: after an inline handler returned, also what that handler knew *)
+Definition main_k (s : lstate) (h : hb) : list nat :=
+  match mainp s with MBusy a => km h ++ kt h a | _ => km h end.
+
+Definition hb_step (s : lstate) (h : hb) (e : label) : hb :=
+  match e with
+  | ESeed b => mkhb (kt h) (km h) (kc h) (upd (kq h) b []) (kcl h)
+  | EDeq b => mkhb (kt h) (main_k s h ++ kq h b) (kc h) (kq h) (kcl h)
+  | ESpawn b | EInline b => mkhb (upd (kt h) b (km h)) (km h) (kc h) (kq h) (kcl h)
+  | EEnd a _ => mkhb (upd (kt h) a (a :: kt h a)) (km h) (kc h) (kq h) (kcl h)
+  | EDec a b => let k := kt h a ++ kc h b in mkhb (upd (kt h) a k) (km h) (upd (kc h) b k) (kq h) (kcl h)
+  | EEnq a b => mkhb (kt h) (km h) (kc h) (upd (kq h) b (kt h a)) (kcl h)
+  | EClose => mkhb (kt h) (km h) (kc h) (kq h) (kt h (root G))
+  | EExit => mkhb (kt h) (main_k s h ++ kcl h) (kc h) (kq h) (kcl h)
+  | _ => h
+  end.
+
+(* a knowledge set contains only actions that have ended, and is closed under dependencies *)
+Definition kok (s : lstate) (K : list nat) : Prop :=
+  forall x, In x K -> get (dn s) x = true /\ In x (nodes G) /\ incl (deps G x) K.
+
+Record HInv (s : lstate) (g : ghost) (h : hb) : Prop := mkHInv {
+  h_kt : forall a, kok s (kt h a);
+  h_km : kok s (km h);
+  h_kc : forall b, kok s (kc h b);
+  h_kq : forall b, kok s (kq h b);
+  h_kcl : kok s (kcl h);
+  h_th : forall a t, get (th s) a = Some t -> incl (deps G a) (kt h a);
+  h_self : forall a t, get (th s) a = Some t -> a <> root G -> get (dn s) a = true -> In a (kt h a);
+  h_main : forall b, mainp s = MHave b -> incl (deps G b) (km h);
+  h_queue : forall b, stg g b = SQueue -> incl (deps G b) (kq h b);
+  h_slot : forall a b, stg g b = SSlot a -> incl (deps G b) (kt h a);
+  h_cnt : forall d b, In d (alln G) -> In b (alln G) -> In d (deps G b) -> rem s d b = 0 -> In d (kc h b);
+  h_closed : closed s = true -> incl (deps G (root G)) (kcl h);
+  h_done : mainp s = MDone -> closed s = true /\ incl (kcl h) (km h) }.
+
+Lemma kok_app : forall s K1 K2, kok s K1 -> kok s K2 -> kok s (K1 ++ K2).
+Proof.
+  intros s K1 K2 H1 H2 x Hx. apply in_app_or in Hx. destruct Hx as [Hx | Hx].
+  - destruct (H1 x Hx) as [A [B C]]. split; auto. split; auto. intros y Hy. apply in_or_app. left. auto.
+  - destruct (H2 x Hx) as [A [B C]]. split; auto. split; auto. intros y Hy. apply in_or_app. right. auto.
+Qed.
+
+Lemma kok_nil : forall s, kok s [].
+Proof. intros s x []. Qed.
+
+Lemma kok_mono : forall s s' K, (forall x, get (dn s) x = true -> get (dn s') x = true) -> kok s K -> kok s' K.
+Proof. intros s s' K Hm H x Hx. destruct (H x Hx) as [A [B C]]. auto. Qed.
+
+Lemma HInv_init : HInv (init G) ghost0 hb0.
+Proof.
+  constructor; unfold hb0, init, ghost0; simpl; intros;
+    try (match goal with |- kok _ _ => apply kok_nil end); rewrite ?get_const in *; try discriminate.
+  - destruct (memb b (nodes G) && nilb (deps G b)); discriminate.
+  - destruct (memb b (nodes G) && nilb (deps G b)); discriminate.
+  - exfalso. unfold rem, remT in *. simpl in *. rewrite get_const in *.
+    match goal with H : countb _ (trig G _) = 0 |- _ => rewrite (wf_inv G WF) in H by assumption end.
+    assert (0 < countb d (deps G b)) by (apply countb_In; assumption). lia.
+Qed.
+
+Lemma kok_same : forall (s s' : lstate) K, dn s' = dn s -> kok s K -> kok s' K.
+Proof. intros s s' K E H x Hx. unfold kok in H. rewrite E. auto. Qed.
+
+Lemma HInv_ESeed : forall s g h free b s' f', Inv s g -> HInv s g h -> step s free (ESeed b) = Some (s', f') ->
+  HInv s' (ghost_step s g (ESeed b)) (hb_step s h (ESeed b)).
+Proof.
+  intros s g h free b s' f' I Hh H. destr_step H.
+  assert (Sb : stg g b = SSeed).
+  { pose proof (i_seed s g I b) as Hx. pose proof (remove1_count _ _ _ Heqo b) as Hy. rewrite Nat.eqb_refl in Hy. destruct (stg g b); auto; lia. }
+  constructor; cbn [hb_step kt km kc kq kcl]; psimpl; intros.
+  - apply (h_kt _ _ _ Hh).
+  - apply (h_km _ _ _ Hh).
+  - apply (h_kc _ _ _ Hh).
+  - cases b0 b; gsimp. apply kok_nil. apply (h_kq _ _ _ Hh).
+  - apply (h_kcl _ _ _ Hh).
+  - eapply (h_th _ _ _ Hh); eauto.
+  - eapply (h_self _ _ _ Hh); eauto.
+  - eapply (h_main _ _ _ Hh); eauto.
+  - cases b0 b; gsimp. rewrite (i_seeddeps _ _ I b Sb). apply incl_nil_l. eapply (h_queue _ _ _ Hh); eauto.
+  - cases b0 b; gsimp. discriminate. eapply (h_slot _ _ _ Hh); eauto.
+  - eapply (h_cnt _ _ _ Hh); eauto.
+  - eapply (h_closed _ _ _ Hh); eauto.
+  - eapply (h_done _ _ _ Hh); eauto.
+Qed.
+
+Lemma main_k_ok : forall s g h, HInv s g h -> kok s (main_k s h).
+Proof.
+  intros. unfold main_k. destruct (mainp s); try apply (h_km _ _ _ H). apply kok_app. apply (h_km _ _ _ H). apply (h_kt _ _ _ H).
+Qed.
+
+Lemma main_k_incl : forall s h, incl (km h) (main_k s h).
+Proof. intros. unfold main_k. destruct (mainp s); try apply incl_refl. apply incl_appl. apply incl_refl. Qed.
+
+Lemma HInv_EDeq : forall s g h free b s' f', Inv s g -> HInv s g h -> step s free (EDeq b) = Some (s', f') ->
+  HInv s' (ghost_step s g (EDeq b)) (hb_step s h (EDeq b)).
+Proof.
+  intros s g h free b s' f' I Hh H. destr_step H. bsplit.
+  assert (Sb : stg g b = SQueue).
+  { pose proof (i_queue s g I b) as Hx. pose proof (remove_msg_count _ _ _ Heqo b) as Hy. rewrite Nat.eqb_refl in Hy. destruct (stg g b); auto; lia. }
+  pose proof (main_k_ok _ _ _ Hh) as Hmk.
+  constructor; cbn [hb_step kt km kc kq kcl]; psimpl; intros.
+  - apply (h_kt _ _ _ Hh).
+  - apply kok_app. exact Hmk. apply (h_kq _ _ _ Hh).
+  - apply (h_kc _ _ _ Hh).
+  - apply (h_kq _ _ _ Hh).
+  - apply (h_kcl _ _ _ Hh).
+  - eapply (h_th _ _ _ Hh); eauto.
+  - eapply (h_self _ _ _ Hh); eauto.
+  - inversion H1; subst. apply incl_appr. apply (h_queue _ _ _ Hh). assumption.
+  - cases b0 b; gsimp. discriminate. eapply (h_queue _ _ _ Hh); eauto.
+  - cases b0 b; gsimp. discriminate. eapply (h_slot _ _ _ Hh); eauto.
+  - eapply (h_cnt _ _ _ Hh); eauto.
+  - eapply (h_closed _ _ _ Hh); eauto.
+  - discriminate.
+Qed.
+
+Lemma HInv_spawn : forall s g h b sem inl mp (e : label),
+  Inv s g -> HInv s g h -> mainp s = MHave b -> (mp = MIdle \/ mp = MBusy b) -> (e = ESpawn b \/ e = EInline b) ->
+  HInv (new_thread R s b sem inl mp) (ghost_step s g e) (hb_step s h e).
+Proof.
+  intros s g h b sem inl mp e I Hh Hm Hmp He.
+  pose proof (held_no_thread _ _ _ I Hm) as Tb.
+  assert (Eg : ghost_step s g e = mkgh (owe g) (upd (stg g) b SThread)) by (destruct He; subst; reflexivity).
+  assert (Eh : hb_step s h e = mkhb (upd (kt h) b (km h)) (km h) (kc h) (kq h) (kcl h)) by (destruct He; subst; reflexivity).
+  rewrite Eg, Eh. clear Eg Eh He.
+  constructor; cbn [kt km kc kq kcl]; psimpl; intros.
+  - cases a b; gsimp. apply (h_km _ _ _ Hh). apply (h_kt _ _ _ Hh).
+  - apply (h_km _ _ _ Hh).
+  - apply (h_kc _ _ _ Hh).
+  - apply (h_kq _ _ _ Hh).
+  - apply (h_kcl _ _ _ Hh).
+  - cases a b; gsimp. apply (h_main _ _ _ Hh). assumption. eapply (h_th _ _ _ Hh); eauto.
+  - cases a b; gsimp. rewrite (i_dn0 _ _ I b Tb) in H1. discriminate. eapply (h_self _ _ _ Hh); eauto.
+  - destruct Hmp; subst; discriminate.
+  - cases b0 b; gsimp. discriminate. eapply (h_queue _ _ _ Hh); eauto.
+  - cases b0 b; gsimp. discriminate. cases a b; gsimp.
+    + exfalso. apply (i_slot _ _ I) in H. destruct H as [t [ts [H1 H2]]]. congruence.
+    + eapply (h_slot _ _ _ Hh); eauto.
+  - apply (h_cnt _ _ _ Hh); auto. unfold rem, remT in *. psimpl. cases d b; gsimp; auto. rewrite Tb. assumption.
+  - eapply (h_closed _ _ _ Hh); eauto.
+  - destruct Hmp; subst; discriminate.
+Qed.
+
+Lemma set_some_ex : forall (m : fmap (option thread)) a t t' x tx,
+  get m a = Some t -> get (set m a (Some t')) x = Some tx -> exists t0, get m x = Some t0.
+Proof. intros. cases x a; gsimp; eauto. Qed.
+
+(* steps that change nothing but the phase of one handler (and flags the skeleton does not look at) *)
+Lemma HInv_phase : forall s g h s' a t p',
+  HInv s g h -> get (th s) a = Some t ->
+  th s' = set (th s) a (Some (mkth p' (hsem t) (hinl t))) -> dn s' = dn s -> mainp s' = mainp s -> closed s' = closed s ->
+  (forall b, countb b (tsof p' a) = countb b (tsof (hph t) a)) ->
+  HInv s' g h.
+Proof.
+  intros s g h s' a t p' Hh Ht Eth Edn Em Ec Ets.
+  constructor; intros.
+  - eapply kok_same; eauto. apply (h_kt _ _ _ Hh).
+  - eapply kok_same; eauto. apply (h_km _ _ _ Hh).
+  - eapply kok_same; eauto. apply (h_kc _ _ _ Hh).
+  - eapply kok_same; eauto. apply (h_kq _ _ _ Hh).
+  - eapply kok_same; eauto. apply (h_kcl _ _ _ Hh).
+  - rewrite Eth in H. destruct (set_some_ex _ _ _ _ _ _ Ht H) as [tz Hz]. eapply (h_th _ _ _ Hh); eauto.
+  - rewrite Eth in H. destruct (set_some_ex _ _ _ _ _ _ Ht H) as [tz Hz]. rewrite Edn in H1. eapply (h_self _ _ _ Hh); eauto.
+  - rewrite Em in H. eapply (h_main _ _ _ Hh); eauto.
+  - eapply (h_queue _ _ _ Hh); eauto.
+  - eapply (h_slot _ _ _ Hh); eauto.
+  - apply (h_cnt _ _ _ Hh); auto. unfold rem in *. rewrite Eth in H2. rewrite ph_rem in H2; auto.
+  - rewrite Ec in H. eapply (h_closed _ _ _ Hh); eauto.
+  - rewrite Em in H. rewrite Ec. eapply (h_done _ _ _ Hh); eauto.
+Qed.
+
+Lemma HInv_EStart : forall s g h free a s' f', Inv s g -> HInv s g h -> step s free (EStart a) = Some (s', f') ->
+  HInv s' (ghost_step s g (EStart a)) (hb_step s h (EStart a)).
+Proof.
+  intros s g h free a s' f' I Hh H. destr_step H. name_th. cbn [ghost_step hb_step].
+  eapply HInv_phase with (a := a) (t := t); [exact Hh | exact Ht | reflexivity | reflexivity | reflexivity | reflexivity |].
+  cbn [tsof]. rewrite Hp. reflexivity.
+Qed.
+
+Lemma HInv_ERel : forall s g h free a s' f', Inv s g -> HInv s g h -> step s free (ERel a) = Some (s', f') ->
+  HInv s' (ghost_step s g (ERel a)) (hb_step s h (ERel a)).
+Proof.
+  intros s g h free a s' f' I Hh H. destr_step H. name_th. cbn [ghost_step hb_step].
+  eapply HInv_phase with (a := a) (t := t); [exact Hh | exact Ht | reflexivity | reflexivity | reflexivity | reflexivity |].
+  cbn [tsof]. rewrite Hp. reflexivity.
+Qed.
+
+Lemma kok_grow : forall (s s' : lstate) a K, dn s' = set (dn s) a true -> kok s K -> kok s' K.
+Proof.
+  intros s s' a K E H. eapply kok_mono; [| exact H]. intros x Hx. rewrite E. cases x a; gsimp; auto.
+Qed.
+
+Lemma HInv_EEnd : forall s g h free a o s' f', Inv s g -> HInv s g h -> step s free (EEnd a o) = Some (s', f') ->
+  HInv s' (ghost_step s g (EEnd a o)) (hb_step s h (EEnd a o)).
+Proof.
+  intros s g h free a o s' f' I Hh H. destr_step H. name_th. cbn [ghost_step hb_step].
+  assert (Ha : In a (alln G)) by (eapply th_alln; eauto).
+  assert (Hnr : a <> root G). { intro. subst. pose proof (i_root _ _ I _ Ht) as Hx. rewrite Hp in Hx. assumption. }
+  assert (Han : In a (nodes G)). { destruct (alln_cases G WF a Ha) as [? | [? _]]; [congruence | assumption]. }
+  match goal with |- HInv ?S _ _ => set (s' := S) end.
+  assert (Edn : dn s' = set (dn s) a true) by reflexivity.
+  assert (Hka : kok s' (a :: kt h a)).
+  { intros x [<- | Hx].
+    - split. rewrite Edn. gsimp. reflexivity. split; auto. apply incl_tl. eapply (h_th _ _ _ Hh); eauto.
+    - destruct (kok_grow s s' a _ Edn (h_kt _ _ _ Hh a) x Hx) as [A [B C]]. split; auto. split; auto. apply incl_tl. assumption. }
+  constructor; cbn [kt km kc kq kcl]; intros.
+  - cases a0 a; gsimp. assumption. eapply kok_grow; eauto. apply (h_kt _ _ _ Hh).
+  - eapply kok_grow; eauto. apply (h_km _ _ _ Hh).
+  - eapply kok_grow; eauto. apply (h_kc _ _ _ Hh).
+  - eapply kok_grow; eauto. apply (h_kq _ _ _ Hh).
+  - eapply kok_grow; eauto. apply (h_kcl _ _ _ Hh).
+  - subst s'. psimpl. cases a0 a; gsimp. apply incl_tl. eapply (h_th _ _ _ Hh); eauto. eapply (h_th _ _ _ Hh); eauto.
+  - subst s'. psimpl. cases a0 a; gsimp. left. reflexivity. eapply (h_self _ _ _ Hh); eauto.
+  - subst s'. psimpl. eapply (h_main _ _ _ Hh); eauto.
+  - eapply (h_queue _ _ _ Hh); eauto.
+  - cases a0 a; gsimp. apply incl_tl. eapply (h_slot _ _ _ Hh); eauto. eapply (h_slot _ _ _ Hh); eauto.
+  - apply (h_cnt _ _ _ Hh); auto. unfold rem in *. subst s'. psimpl. rewrite ph_rem in H2; auto.
+    intros. rewrite Hp. destruct (after_end_cases t a) as [[_ ->] | [_ ->]]; reflexivity.
+  - subst s'. psimpl. eapply (h_closed _ _ _ Hh); eauto.
+  - subst s'. psimpl. eapply (h_done _ _ _ Hh); eauto.
+Qed.
+
+Lemma HInv_EClose : forall s g h free s' f', Inv s g -> HInv s g h -> step s free EClose = Some (s', f') ->
+  HInv s' (ghost_step s g EClose) (hb_step s h EClose).
+Proof.
+  intros s g h free s' f' I Hh H. destr_step H. name_th. cbn [ghost_step hb_step].
+  match goal with |- HInv ?S _ _ => set (s' := S) end.
+  assert (Edn : dn s' = set (dn s) (root G) true) by reflexivity.
+  assert (Hnc : closed s = false). { rewrite (i_closed _ _ I), (i_dn _ _ I _ _ Ht), Hp. reflexivity. }
+  constructor; cbn [kt km kc kq kcl]; intros.
+  - eapply kok_grow; eauto. apply (h_kt _ _ _ Hh).
+  - eapply kok_grow; eauto. apply (h_km _ _ _ Hh).
+  - eapply kok_grow; eauto. apply (h_kc _ _ _ Hh).
+  - eapply kok_grow; eauto. apply (h_kq _ _ _ Hh).
+  - eapply kok_grow; eauto. apply (h_kt _ _ _ Hh).
+  - subst s'. psimpl. destruct (set_some_ex _ _ _ _ _ _ Ht H) as [tz Hz]. eapply (h_th _ _ _ Hh); eauto.
+  - subst s'. psimpl. destruct (set_some_ex _ _ _ _ _ _ Ht H) as [tz Hz]. gsimp. eapply (h_self _ _ _ Hh); eauto.
+  - subst s'. psimpl. eapply (h_main _ _ _ Hh); eauto.
+  - eapply (h_queue _ _ _ Hh); eauto.
+  - eapply (h_slot _ _ _ Hh); eauto.
+  - apply (h_cnt _ _ _ Hh); auto. unfold rem in *. subst s'. psimpl. rewrite ph_rem in H2; auto.
+    intros. rewrite Hp. destruct (after_end_cases t (root G)) as [[_ ->] | [_ ->]]; reflexivity.
+  - eapply (h_th _ _ _ Hh); eauto.
+  - subst s'. psimpl. destruct (h_done _ _ _ Hh H). congruence.
+Qed.
+
+Lemma HInv_EEnq : forall s g h free a b s' f', Inv s g -> HInv s g h -> step s free (EEnq a b) = Some (s', f') ->
+  HInv s' (ghost_step s g (EEnq a b)) (hb_step s h (EEnq a b)).
+Proof.
+  intros s g h free a b s' f' I Hh H. destr_step H. bsplit. name_th. cbn [ghost_step hb_step].
+  assert (Sb : stg g b = SSlot a) by (apply (i_slot _ _ I); eauto).
+  constructor; cbn [kt km kc kq kcl]; psimpl; intros.
+  - apply (h_kt _ _ _ Hh).
+  - apply (h_km _ _ _ Hh).
+  - apply (h_kc _ _ _ Hh).
+  - cases b0 b; gsimp. apply (h_kt _ _ _ Hh). apply (h_kq _ _ _ Hh).
+  - apply (h_kcl _ _ _ Hh).
+  - destruct (set_some_ex _ _ _ _ _ _ Ht H) as [tz Hz]. eapply (h_th _ _ _ Hh); eauto.
+  - destruct (set_some_ex _ _ _ _ _ _ Ht H) as [tz Hz]. eapply (h_self _ _ _ Hh); eauto.
+  - eapply (h_main _ _ _ Hh); eauto.
+  - cases b0 b; gsimp. eapply (h_slot _ _ _ Hh); eauto. eapply (h_queue _ _ _ Hh); eauto.
+  - cases b0 b; gsimp. discriminate. eapply (h_slot _ _ _ Hh); eauto.
+  - apply (h_cnt _ _ _ Hh); auto. unfold rem in *. psimpl. rewrite ph_rem in H2; auto. rewrite Hp. reflexivity.
+  - eapply (h_closed _ _ _ Hh); eauto.
+  - eapply (h_done _ _ _ Hh); eauto.
+Qed.
+
+Lemma HInv_EExit : forall s g h free s' f', Inv s g -> HInv s g h -> step s free EExit = Some (s', f') ->
+  HInv s' (ghost_step s g EExit) (hb_step s h EExit).
+Proof.
+  intros s g h free s' f' I Hh H. destr_step H. bsplit. cbn [ghost_step hb_step].
+  pose proof (main_k_ok _ _ _ Hh) as Hmk.
+  constructor; cbn [kt km kc kq kcl]; psimpl; intros.
+  - apply (h_kt _ _ _ Hh).
+  - apply kok_app. exact Hmk. apply (h_kcl _ _ _ Hh).
+  - apply (h_kc _ _ _ Hh).
+  - apply (h_kq _ _ _ Hh).
+  - apply (h_kcl _ _ _ Hh).
+  - eapply (h_th _ _ _ Hh); eauto.
+  - eapply (h_self _ _ _ Hh); eauto.
+  - discriminate.
+  - eapply (h_queue _ _ _ Hh); eauto.
+  - eapply (h_slot _ _ _ Hh); eauto.
+  - eapply (h_cnt _ _ _ Hh); eauto.
+  - eapply (h_closed _ _ _ Hh); eauto.
+  - split. assumption. apply incl_appr. apply incl_refl.
+Qed.
+
+Lemma HInv_EDec : forall s g h free a b s' f', Inv s g -> HInv s g h -> step s free (EDec a b) = Some (s', f') ->
+  HInv s' (ghost_step s g (EDec a b)) (hb_step s h (EDec a b)).
+Proof.
+  intros s g h free a b s' f' I Hh H.
+  pose proof (Inv_step _ _ _ _ _ _ I H) as I'.
+  unfold C06.step in H.
+  destruct (get (th s) a) as [t |] eqn:Ht; try discriminate.
+  destruct (hph t) as [| | | [| b' ts0] |] eqn:Hp; try discriminate.
+  destruct ((b' =? b) && negb (blocked top s a)) eqn:Hc; try discriminate.
+  inversion H; subst; clear H. bsplit.
+  assert (Ha : In a (alln G)) by exact (th_alln _ _ I _ _ Ht).
+  assert (Hts : incl (b :: ts0) (trig G a)). { pose proof (i_ts _ _ I _ _ Ht) as Hx. rewrite Hp in Hx. assumption. }
+  assert (Hb : In b (alln G)). { eapply (wf_tin G WF); eauto. apply Hts. left. reflexivity. }
+  assert (Hnr : a <> root G). { intro. subst. pose proof (wf_rtrig G WF) as Hx. rewrite Hx in Hts. apply (Hts b). left. reflexivity. }
+  assert (Hda : get (dn s) a = true). { rewrite (i_dn _ _ I _ _ Ht), Hp. reflexivity. }
+  assert (Hself : In a (kt h a)) by (eapply (h_self _ _ _ Hh); eauto).
+  remember (if get (pend s) b =? 1 then HSend b ts0 else HTrig ts0) as p' eqn:Ep'.
+  assert (Hp'ts : tsof p' a = ts0) by (subst p'; destruct (get (pend s) b =? 1); reflexivity).
+  match goal with |- HInv ?S _ _ => set (s' := S) in * end.
+  assert (Hrem : forall d b0, rem s' d b0 = if d =? a then countb b0 ts0 else rem s d b0).
+  { intros. unfold rem. subst s'. psimpl. rewrite remT_set. simpl. rewrite Hp'ts. reflexivity. }
+  assert (Hold : forall b0, rem s a b0 = (if b =? b0 then 1 else 0) + countb b0 ts0).
+  { intros. unfold rem, remT. rewrite Ht, Hp. simpl. reflexivity. }
+  cbn [ghost_step hb_step].
+  constructor; cbn [kt km kc kq kcl owe stg]; intros.
+  - cases a0 a; gsimp. apply kok_app. apply (h_kt _ _ _ Hh). apply (h_kc _ _ _ Hh). apply (h_kt _ _ _ Hh).
+  - apply (h_km _ _ _ Hh).
+  - cases b0 b; gsimp. apply kok_app. apply (h_kt _ _ _ Hh). apply (h_kc _ _ _ Hh). apply (h_kc _ _ _ Hh).
+  - apply (h_kq _ _ _ Hh).
+  - apply (h_kcl _ _ _ Hh).
+  - subst s'. psimpl. destruct (set_some_ex _ _ _ _ _ _ Ht H) as [tz Hz]. cases a0 a; gsimp.
+    apply incl_appl. eapply (h_th _ _ _ Hh); eauto. eapply (h_th _ _ _ Hh); eauto.
+  - subst s'. psimpl. destruct (set_some_ex _ _ _ _ _ _ Ht H) as [tz Hz]. cases a0 a; gsimp.
+    apply in_or_app. left. assumption. eapply (h_self _ _ _ Hh); eauto.
+  - subst s'. psimpl. eapply (h_main _ _ _ Hh); eauto.
+  - destruct (get (pend s) b =? 1) eqn:E1.
+    + cases b0 b; gsimp. discriminate. eapply (h_queue _ _ _ Hh); eauto.
+    + eapply (h_queue _ _ _ Hh); eauto.
+  - assert (Hmono : forall x, incl (kt h x) (upd (kt h) a (kt h a ++ kc h b) x)).
+    { intros x. cases x a; gsimp. apply incl_appl. apply incl_refl. apply incl_refl. }
+    destruct (get (pend s) b =? 1) eqn:E1.
+    + cases b0 b; gsimp.
+      * inversion H as [Ea]. subst a0. gsimp. intros d Hd.
+        (* the counter reached zero: every dependency of b has performed all its decrements *)
+        assert (Hdn : In d (alln G)) by (right; eapply deps_in_nodes; eauto).
+        apply Nat.eqb_eq in E1.
+        assert (Hz : rem s' d b = 0).
+        { rewrite <- (i_owe _ _ I' d b Hdn Hb). cbn [ghost_step owe]. gsimp.
+          pose proof (i_pend _ _ I' b Hb) as Hx. cbn [ghost_step owe] in Hx. gsimp. subst s'. psimpl. gsimp.
+          rewrite E1 in Hx. simpl in Hx. destruct (rm1 a (owe g b)); simpl in *; [reflexivity | discriminate]. }
+        rewrite Hrem in Hz. destruct (Nat.eqb_spec d a).
+        -- subst. apply in_or_app. left. assumption.
+        -- apply in_or_app. right. apply (h_cnt _ _ _ Hh); auto.
+      * eapply incl_tran; [| apply Hmono]. eapply (h_slot _ _ _ Hh); eauto.
+    + eapply incl_tran; [| apply Hmono]. eapply (h_slot _ _ _ Hh); eauto.
+  - match goal with Hr : rem _ _ _ = 0 |- _ => rename Hr into Hz end. rewrite Hrem in Hz. cases b0 b; gsimp.
+    + destruct (Nat.eqb_spec d a).
+      * subst. apply in_or_app. left. assumption.
+      * apply in_or_app. right. apply (h_cnt _ _ _ Hh); auto.
+    + apply (h_cnt _ _ _ Hh); auto. destruct (Nat.eqb_spec d a); auto. subst. rewrite Hold. eqb_simp. assumption.
+  - subst s'. psimpl. eapply (h_closed _ _ _ Hh); eauto.
+  - subst s'. psimpl. eapply (h_done _ _ _ Hh); eauto.
+Qed.
+
+Theorem HInv_step : forall s g h free e s' f', Inv s g -> HInv s g h -> step s free e = Some (s', f') ->
+  HInv s' (ghost_step s g e) (hb_step s h e).
+Proof.
+  intros. destruct e.
+  - eapply HInv_ESeed; eauto.
+  - eapply HInv_EDeq; eauto.
+  - destr_step H1. bsplit. eapply HInv_spawn; eauto.
+  - destr_step H1. bsplit. eapply HInv_spawn; eauto.
+  - eapply HInv_EStart; eauto.
+  - eapply HInv_EEnd; eauto.
+  - eapply HInv_ERel; eauto.
+  - eapply HInv_EDec; eauto.
+  - eapply HInv_EEnq; eauto.
+  - eapply HInv_EClose; eauto.
+  - eapply HInv_EExit; eauto.
 Qed.
 
 End LevelProofs.
